@@ -129,7 +129,10 @@ def check(run):
         run.ev()
         W = (rng.integers(1, 5, N).astype(np.float32) if (k % 3 == 1 or N > 60000) else None)  # integer weights keep the painting exact on the lattice
         desc['weighted'] = W is not None
-        R0 = run_power(ps, pos, box, conf, w=W)
+        R0 = safe_power(ps, pos, box, conf, w=W)
+        if isinstance(R0, Raised):
+            run.violation('power-run-raises', dict(error=f'{type(R0.e).__name__}: {R0.e}'[:200], **desc))  # every configuration drawn here is a documented one
+            continue
         populated = int((np.asarray(R0['N_mode']).reshape(len(R0), -1).sum(axis=1) > 0).sum())
         if k < 3:
             run.sample(dict(desc, first_positions=pos[:2].tolist(), power_head=np.asarray(R0['power']).ravel()[:3].tolist(), N_mode_head=np.asarray(R0['N_mode']).ravel()[:3].tolist()))
